@@ -273,7 +273,7 @@ class Spec(core.PropSpec):
                            "python shutil/zipfile/pathlib on the fake os"],
                   "stub": ["kernel file system (pyfakefs 6.2.0, vendored) with intercepted mutation primitives",
                            "joblib.Parallel (baton-scheduled threads yielding at FS primitives)"]}
-    tiers = {"quick": dict(runs=400, budget_s=60), "thorough": dict(runs=16000, budget_s=900)}
+    tiers = {"quick": dict(runs=320, budget_s=45), "thorough": dict(runs=16000, budget_s=900)}
     determinism_sample = 4
 
     def gen_plan(self, seed, tier):
